@@ -102,7 +102,7 @@ func registerStandardExt() {
 		}
 	}
 	// (the last one has a name that sorts before the built-in profiles' names)
-	for _, p := range []psatoken.IProfile{ExtLaxIDProfile{}, ExtDefaultingProfile{}, ExtShadowProfile{}, ExtOddFieldsProfile{}, ExtP1With265Profile{}, ExtTwoEmbedsProfile{}, ExtRawProfile{}, ExtPlainProfile{}, ExtProfile{"http://acme.example/psa", 2}} {
+	for _, p := range []psatoken.IProfile{ExtLaxIDProfile{}, ExtDefaultingProfile{}, ExtShadowProfile{}, ExtOddFieldsProfile{}, ExtP1With265Profile{}, ExtTwoEmbedsProfile{}, ExtRawProfile{}, ExtPlainProfile{}, ExtTagSpellingsProfile{}, ExtProfile{"http://acme.example/psa", 2}} {
 		if _, _, ok := psatoken.VerifRegistryEntry(p.GetName()); !ok {
 			if err := psatoken.RegisterProfile(p); err != nil {
 				panic(err)
@@ -830,4 +830,68 @@ func (ExtPlainProfile) GetClaims() psatoken.IClaims {
 		panic(err)
 	}
 	return &ExtPlainClaims{P2Fields: P2Fields{Profile: &ep, SwComponents: &psatoken.SwComponents[*psatoken.SwComponent]{}, CanonicalProfile: ExtPlainName}}
+}
+
+// WrapOf is WrapClaims once per type argument: distinct Go types with the same shape, so that a scenario can own a type
+// nothing else in the process has touched before (whatever the codec remembers per type is cold for it, and the first
+// use of the type is the scenario's first execution).
+type WrapOf[Tag any] struct {
+	psatoken.IClaims
+	Stamp *int64 `cbor:"-75100,keyasint,omitempty" json:"stamp,omitempty"`
+}
+
+func (o WrapOf[Tag]) MarshalCBOR() ([]byte, error) { return encoding.SerializeStructToCBOR(extEM, &o) }
+func (o *WrapOf[Tag]) UnmarshalCBOR(d []byte) error {
+	return encoding.PopulateStructFromCBOR(extDM, d, o)
+}
+func (o WrapOf[Tag]) MarshalJSON() ([]byte, error)  { return encoding.SerializeStructToJSON(&o) }
+func (o *WrapOf[Tag]) UnmarshalJSON(d []byte) error { return encoding.PopulateStructFromJSON(d, o) }
+
+type (
+	tagP1First  struct{}
+	tagP2First  struct{}
+	tagNilFirst struct{}
+	tagC03a     struct{}
+	tagC03b     struct{}
+	tagC09a     struct{}
+	tagC09b     struct{}
+)
+
+// ---- a derived profile whose struct tags are spelled in every way the embedding-aware codec documents (C04, C15):
+// options in either order, omitempty directly after the key, no keyasint, the key alone ----
+
+type ExtTagSpellingsClaims struct {
+	psatoken.P2Claims
+	A *int64  `cbor:"-75500,omitempty" json:"a,omitempty"`
+	B *int64  `cbor:"-75501,omitempty,keyasint" json:"b,omitempty"`
+	C *int64  `cbor:"-75502,keyasint,omitempty" json:"c,omitempty"`
+	D *int64  `cbor:"-75503,keyasint" json:"d"`
+	E *string `cbor:"-75504" json:"e"`
+}
+
+const ExtTagSpellingsName = "http://example.com/psa/tag-spellings"
+
+func (o *ExtTagSpellingsClaims) Validate() error { return psatoken.ValidateClaims(o) }
+func (o ExtTagSpellingsClaims) MarshalCBOR() ([]byte, error) {
+	return encoding.SerializeStructToCBOR(extEM, &o)
+}
+func (o *ExtTagSpellingsClaims) UnmarshalCBOR(d []byte) error {
+	return encoding.PopulateStructFromCBOR(extDM, d, o)
+}
+func (o ExtTagSpellingsClaims) MarshalJSON() ([]byte, error) {
+	return encoding.SerializeStructToJSON(&o)
+}
+func (o *ExtTagSpellingsClaims) UnmarshalJSON(d []byte) error {
+	return encoding.PopulateStructFromJSON(d, o)
+}
+
+type ExtTagSpellingsProfile struct{}
+
+func (ExtTagSpellingsProfile) GetName() string { return ExtTagSpellingsName }
+func (ExtTagSpellingsProfile) GetClaims() psatoken.IClaims {
+	ep := eat.Profile{}
+	if err := ep.Set(ExtTagSpellingsName); err != nil {
+		panic(err)
+	}
+	return &ExtTagSpellingsClaims{P2Claims: psatoken.P2Claims{Profile: &ep, SwComponents: &psatoken.SwComponents[*psatoken.SwComponent]{}, CanonicalProfile: ExtTagSpellingsName}}
 }
